@@ -837,6 +837,16 @@ fn process_incoming_text_message<T: Read + Write>(
                         Some(fc) => {
                             // todo add check for !stream.one_pass
                             if let Some(pos) = fc.streams.iter().position(|x| x.id == id) {
+                                if fc.streams[pos].one_pass && command != "stop" {
+                                    // one_pass streams support no window changes, no search (msgs get drained)
+                                    websocket
+                                        .write_message(Message::Text(format!(
+                                            "err: {} failed. stream_id {} is a one_pass stream. Only stop is supported!",
+                                            command, id
+                                        )))
+                                        .unwrap(); // todo
+                                    return;
+                                }
                                 match command {
                                     "stream_search" => {
                                         // search within the stream for all messages matching the filters:
